@@ -96,10 +96,20 @@ structure Scenario where
   /-- `some k`: `Stop()` is called while traffic is flowing, once k messages have been delivered -/
   stopMid : Option Nat
   clients : List Client
+  /-- `0`: client i exports in its own observation domain i+1 and sends its template once (message 0).
+      `r > 0`: ALL clients export in observation domain 1 with the same template id - ONE stored template in
+      the collector - and every client sends the template again as every r-th of its messages (0, r, 2r, ...),
+      so that template definitions by one exporter run concurrently with data decoding by the others. The
+      harness tells the clients apart by the client number the messages carry (sequence-number field and
+      first field of the data record) and reports deliveries as (i+1, number) as before. What is DEMANDED
+      does not depend on this field: a re-sent template is one more numbered message of its connection, and
+      over UDP a message that could not be decoded (no template has arrived yet) counts as lost. -/
+  shared : Nat := 0
 deriving Repr
 
-/-- client i (0-based) is connection i+1 (its observation domain id); its messages are numbered
-    0 .. n-1 by the sequence-number field of the IPFIX header (0 = the template) -/
+/-- client i (0-based) is connection i+1 (its observation domain id, or - with a shared domain - the client
+    number its messages carry); its messages are numbered 0 .. n-1 by the sequence-number field of the IPFIX
+    header (0 = the template; with a shared domain every r-th is the template again) -/
 def Scenario.sent (sc : Scenario) : List (ConnId × List Msg) :=
   (List.range sc.clients.length).zip sc.clients |>.map fun (i, cl) => (i + 1, List.range cl.n)
 
